@@ -2,7 +2,7 @@
    and the property itself as a monitor on the observations ("a backend / handler saw the request => the credentials
    demanded by that backend's route were presented").  Reason codes: 0 agree; 5x property monitor; 9x outside the
    modelled fragment; others: model and implementation differ. *)
-From FRP Require Export Corr.Common Model.HttpAuth Model.HttpAuthGroup gen.GenRoutes.
+From FRP Require Export Corr.Common Model.HttpAuth Model.HttpAuthGroup Model.HttpAuthSites gen.GenRoutes gen.GenRouteSites.
 Open Scope Z_scope.
 
 Definition mk_hv (scheme : bytes) (space : bool) (dec : option bytes) : ha_hdr :=
@@ -27,6 +27,13 @@ Inductive case :=
 (* group.TCPMuxGroupCtl over the real muxer: the joins / leaves with the observed results of Listen, then one CONNECT:
    cls / ok200 as for CMux, member = id of the member whose Accept received the connection (-1 none) *)
 | CGrp (ops : list ha_gop) (results : list Z) (rq : ha_req) (cls : Z) (ok200 : bool) (member : Z)
+(* a whole frps + frpc on loopback: the proxies as configured in frpc, the server's subDomainHost, one request on the
+   tcpmux port (kind 1: cls / ok200 as for CMux) or on the vhost http port (kind 0: status); backend = px_id of the proxy
+   whose local service saw it (-1 none) *)
+| CSys (kind : Z) (pxs : list ha_pxcfg) (sdh : bytes) (rq : ha_req) (cls : Z) (ok200 : bool) (backend : Z)
+(* group.HTTPGroupController over the routers of a real HTTPReverseProxy: the joins (Register) in order with their
+   observed results, then one GET: status and the member whose CreateConnFn was called (-1 none) *)
+| CHGrp (ms : list ha_gmember) (results : list Z) (rq : ha_req) (status : Z) (member : Z)
 (* HTTPAuthMiddleware around a marker handler *)
 | CMw (c : ha_cfg) (rq : ha_req) (status : Z) (reached : bool)
 (* http_proxy plugin: status, target reached.  how = 0: the request is the first of its connection, written in one piece;
@@ -53,6 +60,13 @@ Definition route_by_id (tbl : list ha_route) (id : Z) : option ha_route := find 
 Definition creds_ok (demanded : option (bytes * bytes)) (presented : bytes * bytes) : bool :=
   match demanded with None => true | Some c => opt_pair_eqb (Some c) (Some presented) end.
 
+(* whether today's HTTPGroup.Register compares Username and Password (translator unit t7) *)
+Definition today_http_group_cmp : bool :=
+  existsb (String.eqb "Username") http_group_compared && existsb (String.eqb "Password") http_group_compared.
+(* first member that asked for this member's group: its credentials are the group's *)
+Definition hgrp_first (ms : list ha_gmember) (m : ha_gmember) : option ha_gmember :=
+  find (fun x => bytes_eqb (gm_group x) (gm_group m)) ms.
+
 Definition C07_holds (c : case) : bool :=
   match c with
   | CServe tbl rq _ backend | CServeH2 tbl _ rq _ backend =>
@@ -65,6 +79,20 @@ Definition C07_holds (c : case) : bool :=
       if backend <? 0 then true
       else match route_by_id tbl backend with
            | Some l => creds_ok (ha_mux_creds l) (ha_mux_presented rq)
+           | None => false
+           end
+  | CSys kind pxs _ rq _ _ backend =>
+      if backend <? 0 then true
+      else match find (fun p => px_id p =? backend) pxs with
+           | Some p =>
+               if kind =? 1 then creds_ok (if ha_nonempty (px_user p) then Some (px_user p, px_pass p) else None) (ha_mux_presented rq)
+               else creds_ok (if ha_nonempty (px_user p) || ha_nonempty (px_pass p) then Some (px_user p, px_pass p) else None) (ha_presented rq)
+           | None => false
+           end
+  | CHGrp ms _ rq _ member =>
+      if member <? 0 then true
+      else match find (fun m => gm_id m =? member) ms with
+           | Some m => creds_ok (ha_hmember_creds m) (ha_presented rq)
            | None => false
            end
   | CGrp ops _ rq _ _ member =>
@@ -127,6 +155,29 @@ Definition check_case (c : case) : Z :=
            | MNotFound => if (cls =? 404) && (backend =? -1) && negb ok200 then 0 else 12
            | MAuthFailed s => if (cls =? 407) && (backend =? -1) && Bool.eqb ok200 s then 0 else 13
            | MForward l s => if negb (backend =? rt_id l) then 14 else if (cls =? 200) && Bool.eqb ok200 s then 0 else 15
+           end
+  | CSys kind pxs sdh rq cls ok200 backend =>
+      let tbl := ha_sys_table sdh kind pxs in
+      if kind =? 1 then
+        if negb (in_fragment rq) then 90
+        else match ha_mux_handle (ha_tbl_get tbl) ha_canon_or_self false rq with
+             | MClose => if (cls =? 0) && (backend =? -1) && negb ok200 then 0 else 101
+             | MNotFound => if (cls =? 404) && (backend =? -1) && negb ok200 then 0 else 102
+             | MAuthFailed s => if (cls =? 407) && (backend =? -1) && Bool.eqb ok200 s then 0 else 103
+             | MForward l s => if negb (backend =? rt_id l) then 104 else if (cls =? 200) && Bool.eqb ok200 s then 0 else 105
+             end
+      else
+        let c := check_serve tbl rq cls backend in if c =? 0 then 0 else 110 + c
+  | CHGrp ms results rq status member =>
+      let '(st, rs) := ha_hgrp_run true [] ms in     (* the repaired code (fix 76cc372): credentials are compared *)
+      if negb (forallb (fun p => fst p =? snd p) (combine rs results) && (Z.of_nat (length rs) =? Z.of_nat (length results))) then 121
+      else match ha_serve_http (ha_tbl_get (ha_grp_table st)) ha_canon_or_self rq with
+           | OUnauthorized => if (status =? 401) && (member =? -1) then 0 else 122
+           | ONotFound => if (status =? 404) && (member =? -1) then 0 else 123
+           | ONoHijack => 124
+           | OForward _ =>
+               if negb (status =? 200) then 125
+               else match ha_hgrp_deliver ha_canon_or_self st rq member with Some _ => 0 | None => 126 end
            end
   | CGrp ops results rq cls ok200 member =>
       if negb (in_fragment rq) then 90
@@ -231,6 +282,44 @@ Definition is_grp_protected_delivery (c : case) : bool :=
   | CGrp ops _ rq _ _ member =>
       match ha_grp_deliver ha_canon_or_self (fst (ha_grp_run [] ops)) false rq member with
       | Some m => match ha_member_creds m with Some _ => true | None => false end
+      | None => false
+      end
+  | _ => false
+  end.
+
+Definition mk_px (id kind : Z) (doms : list bytes) (sub : bytes) (locs : list bytes) (grouped : bool) (byu u p : bytes) : ha_pxcfg :=
+  {| px_id := id; px_kind := kind; px_domains := doms; px_subdomain := sub; px_locations := locs; px_grouped := grouped;
+     px_by_user := byu; px_user := u; px_pass := p |}.
+(* a request on a sub-domain host of a protected proxy that was refused / forwarded *)
+Definition sys_host_is_subdomain (pxs : list ha_pxcfg) (sdh : bytes) (rq : ha_req) : bool :=
+  existsb (fun p => ha_nonempty (px_subdomain p) &&
+                    bytes_eqb (ha_canon_or_self (ha_req_host rq)) (lower ((px_subdomain p ++ ha_dot :: sdh)%list))) pxs.
+Definition is_sys_subdomain_refused (c : case) : bool :=
+  match c with
+  | CSys kind pxs sdh rq _ _ _ =>
+      sys_host_is_subdomain pxs sdh rq &&
+      (if kind =? 1 then match ha_mux_handle (ha_tbl_get (ha_sys_table sdh kind pxs)) ha_canon_or_self false rq with MAuthFailed _ => true | _ => false end
+       else match ha_serve_http (ha_tbl_get (ha_sys_table sdh kind pxs)) ha_canon_or_self rq with OUnauthorized => true | _ => false end)
+  | _ => false
+  end.
+Definition is_sys_subdomain_forwarded (c : case) : bool :=
+  match c with
+  | CSys kind pxs sdh rq _ _ _ =>
+      sys_host_is_subdomain pxs sdh rq &&
+      (if kind =? 1 then match ha_mux_handle (ha_tbl_get (ha_sys_table sdh kind pxs)) ha_canon_or_self false rq with MForward _ _ => true | _ => false end
+       else match ha_serve_http (ha_tbl_get (ha_sys_table sdh kind pxs)) ha_canon_or_self rq with OForward _ => true | _ => false end)
+  | _ => false
+  end.
+
+Definition is_hgrp_case (c : case) : bool := match c with CHGrp _ _ _ _ _ => true | _ => false end.
+(* joins refused because the joiner's credentials differ from the group's, and protected members that served *)
+Definition is_hgrp_refused_join (c : case) : bool :=
+  match c with CHGrp ms _ _ _ _ => existsb (fun r => r =? 1) (snd (ha_hgrp_run true [] ms)) | _ => false end.
+Definition is_hgrp_protected_delivery (c : case) : bool :=
+  match c with
+  | CHGrp ms _ rq _ member =>
+      match ha_hgrp_deliver ha_canon_or_self (fst (ha_hgrp_run true [] ms)) rq member with
+      | Some m => match ha_hmember_creds m with Some _ => true | None => false end
       | None => false
       end
   | _ => false
